@@ -1249,11 +1249,11 @@ def truc_rule_builder(ctx, crate):
                 ret = trace_value(b, defs, {'copy': {'l': 0, 'p': [], 'ty': None}})[-1]
                 ok = ok and ret[0] == 'call' and ret[1] is ids[0]
         if not ok:
-            ctx.add(['C12'], 'B-APPEND', DDC + 'push', 'DatumDefinitionCollection::push does not append with id = previous length', key='push')
+            ctx.add(['C12', 'C03'], 'B-APPEND', DDC + 'push', 'DatumDefinitionCollection::push does not append with id = previous length', key='push')
         else:
             ctx.inst('B-APPEND', 'push: id = DatumId::from(data.len()) read before Vec::push; that id is returned')
     else:
-        ctx.add(['C12'], 'B-APPEND', DDC + 'push', 'function not found (anchor lost)', key='anchor')
+        ctx.add(['C12', 'C03'], 'B-APPEND', DDC + 'push', 'function not found (anchor lost)', key='anchor')
     # other mutable uses of DatumDefinitionCollection.data anywhere
     COLL = T + 'DatumDefinitionCollection'
     for x in crate.bodies:
@@ -1263,9 +1263,9 @@ def truc_rule_builder(ctx, crate):
                     if x.path in (DDC + 'push', DDC + 'get_mut'):
                         ctx.inst('B-APPEND', '%s borrows the collection\'s vector mutably' % x.path.split('::')[-1])
                     else:
-                        ctx.add(['C12'], 'B-APPEND', x.key, 'the datum collection\'s vector is borrowed mutably at %s outside push/get_mut (ids could be reused or definitions dropped)' % fmt_span(st.get('span')), key='%s|mut' % x.key)
+                        ctx.add(['C12', 'C03'], 'B-APPEND', x.key, 'the datum collection\'s vector is borrowed mutably at %s outside push/get_mut (ids could be reused or definitions dropped)' % fmt_span(st.get('span')), key='%s|mut' % x.key)
             if st['k'] == 'assign' and any(isinstance(e, dict) and e.get('adt') == COLL and e.get('name') == 'data' for e in st['place']['p']) and x.path != '<' + COLL + '<D> as core::default::Default>::default':
-                ctx.add(['C12'], 'B-APPEND', x.key, 'the datum collection\'s vector is overwritten at %s' % fmt_span(st.get('span')), key='%s|assign' % x.key)
+                ctx.add(['C12', 'C03'], 'B-APPEND', x.key, 'the datum collection\'s vector is overwritten at %s' % fmt_span(st.get('span')), key='%s|assign' % x.key)
     ctx.floor(['C12'], 'B-APPEND', 3)
 
     # B-DELEG: the native builder only delegates
